@@ -215,3 +215,17 @@ def check(ctx):
     from .walkers import restart_walker, join_restarts
     join_restarts(ctx, "R07-h", ("TaskGroup._spawn",), 1)
     restart_walker(ctx, "R07-h")
+
+    # ---- R07-i the handle hands back the start value whatever it is: every value - None included - that started() was given is
+    # returned; the accessor refuses only when no value was ever stored (the attribute is absent), never because of what the value is
+    sv_f = ctx.fn("TaskHandle.start_value", TASKS)
+    rets_ = [n_ for n_ in own_walk(sv_f.node) if isinstance(n_, ast.Return)]
+    okv = bool(rets_) and all(r_.value is not None and ast.unparse(r_.value) == "self._start_value" for r_ in rets_)
+    ctx.ob("R07-i", sv_f, "start_value returns the stored start value itself", okv, node=rets_[0] if rets_ else None,
+           detail="" if okv else "TaskHandle.start_value does not `return self._start_value`", by=("return self._start_value",))
+    for rz_ in [n_ for n_ in own_walk(sv_f.node) if isinstance(n_, ast.Raise)]:
+        fa_ = ctx.facts_at(sv_f, rz_)
+        okr = bool(fa_) and all(("@exc", "AttributeError") in x_ for x_ in fa_)
+        ctx.ob("R07-i", sv_f, "start_value refuses only when no start value was ever stored", okr, node=rz_,
+               detail="" if okr else f"`{norm(rz_)}` is reachable for a task whose start value exists (a value such as None would be reported as 'not started')",
+               by=("@exc=AttributeError",))
